@@ -1,17 +1,26 @@
 /-
   C20 — key containers erase their secret bytes when dropped.
 
-  The model (`KestrelModel/Lifecycle.lean`) runs programs of `generate / fromBytes / clone / drop` over a heap of
-  containers; what a `drop` hands back to the allocator is `dropContents c secret`, which consults the row `c` of the
-  table the translator extracts from the Rust source (`Generated.containers`: does the type have a `Drop` impl that
-  zeroizes, and does the zeroization cover the secret field).
+  The model (`KestrelModel/Lifecycle.lean`) runs programs of `generate / fromBytes / clone / drop / cloneFrom` over a
+  heap of containers; what a `drop` hands back to the allocator is `dropContents c secret`, which consults the row `c`
+  of the table the translator extracts from the Rust source (`Generated.containers`: does the type have a `Drop` impl
+  that zeroizes, does the zeroization cover the secret field, and does `a.clone_from(&b)` drop the old value of `a`
+  — the default `*self = source.clone()` — rather than assign the secret field only).  `cloneFrom i j` overwrites live
+  container `i` with a copy of live container `j` and releases the buffer `i` held before: `dropContents c old` when
+  `assignDropsOld`, the old secret as it is otherwise.
 
-  * `C20_table`       the obligation on the extracted table; fails to check when a `Drop` impl disappears.
+  * `C20_table`       the obligation on the extracted table; fails to check when a `Drop` impl disappears or a
+                      field-wise `clone_from` appears.
   * `C20_lifecycle`   under that obligation EVERY buffer released by EVERY program is all-zero.
-  * `C20_release_count`, `C20_released_once`   one release per `drop` that hits a live container; a slot is released at
-                      most once (it is `none` for ever afterwards).
+  * `C20_release_count`   the number of releases is exactly: one per `drop` that hits a live container plus one per
+                      `cloneFrom` whose two containers are both live (`hits`).
+  * `C20_released_once`   a slot is *dropped* at most once (it is `none` for ever afterwards, and neither `drop` nor
+                      `cloneFrom` releases anything from it again); a slot may be overwritten by `cloneFrom` any number
+                      of times before that, each overwrite being one release counted in `hits`.
   * `C20_clone_independent`   dropping one container does not touch any other (a clone keeps the secret: deep copy).
-  * `C20_leak_without_drop`   the obligation is not vacuous: without it there is a program that releases the secret.
+  * `C20_cloneFrom_releases_zeros`, `C20_cloneFrom_others_untouched`   what one `cloneFrom` does.
+  * `C20_leak_without_drop`, `C20_leak_without_cover`, `C20_leak_with_fieldwise_clone_from`   the obligation is not
+                      vacuous: drop any one of its three parts and there is a program that releases the secret.
 
   What is NOT proved: that the compiled `Drop` code really performs the volatile writes (`zeroize` crate semantics,
   compiler barriers) and that no *other* copy of the secret exists outside these containers (stack temporaries,
@@ -23,12 +32,14 @@ open Generated Lifecycle
 
 /-! ### the obligation on the generated table -/
 
-/-- **C20 (table).** Every secret container of the source has a zeroizing `Drop` that covers its secret field. -/
-theorem C20_table : ∀ c ∈ Generated.containers, c.dropZeroizes = true ∧ c.zeroizeCoversSecret = true := by decide
+/-- **C20 (table).** Every secret container of the source has a zeroizing `Drop` that covers its secret field, and
+    its `clone_from` drops the value it overwrites. -/
+theorem C20_table : ∀ c ∈ Generated.containers,
+    c.dropZeroizes = true ∧ c.zeroizeCoversSecret = true ∧ c.assignDropsOld = true := by decide
 
 /-- the two containers the library hands out are in the table (so `C20_table` speaks about them) -/
-theorem C20_container_PrivateKey : Lifecycle.container "PrivateKey" = some ⟨"PrivateKey", true, true⟩ := by decide
-theorem C20_container_PayloadKey : Lifecycle.container "PayloadKey" = some ⟨"PayloadKey", true, true⟩ := by decide
+theorem C20_container_PrivateKey : Lifecycle.container "PrivateKey" = some ⟨"PrivateKey", true, true, true⟩ := by decide
+theorem C20_container_PayloadKey : Lifecycle.container "PayloadKey" = some ⟨"PayloadKey", true, true, true⟩ := by decide
 
 /-! ### helpers -/
 
@@ -52,10 +63,13 @@ theorem Lifecycle.foldl_inv (c : Container) (I : Heap → Prop) (hstep : ∀ h o
   | nil => intro h hI; exact hI
   | cons op ops ih => intro h hI; exact ih _ (hstep h op hI)
 
-/-- one step only ever adds to `released`, and what it adds is `dropContents` of a live secret -/
+/-- one step only ever adds to `released`, and what it adds is `dropContents` of a live secret (a `drop`), or what
+    `clone_from` leaves of the live secret it overwrites -/
 theorem Lifecycle.step_released (c : Container) (h : Heap) (op : Op) :
     (step c h op).released = h.released ∨
-    ∃ i b, op = .drop i ∧ h.live[i]? = some (some b) ∧ (step c h op).released = dropContents c b :: h.released := by
+    (∃ i b, op = .drop i ∧ h.live[i]? = some (some b) ∧ (step c h op).released = dropContents c b :: h.released) ∨
+    (∃ i j bi bj, op = .cloneFrom i j ∧ h.live[i]? = some (some bi) ∧ h.live[j]? = some (some bj) ∧
+      (step c h op).released = (if c.assignDropsOld then dropContents c bi else bi) :: h.released) := by
   cases op with
   | generate s => exact Or.inl rfl
   | fromBytes b => exact Or.inl rfl
@@ -67,32 +81,45 @@ theorem Lifecycle.step_released (c : Container) (h : Heap) (op : Op) :
     simp only [step]
     split
     · rename_i b hb
-      exact Or.inr ⟨i, b, rfl, hb, rfl⟩
+      exact Or.inr (Or.inl ⟨i, b, rfl, hb, rfl⟩)
+    · exact Or.inl rfl
+  | cloneFrom i j =>
+    simp only [step]
+    split
+    · rename_i bi bj hi hj
+      exact Or.inr (Or.inr ⟨i, j, bi, bj, rfl, hi, hj, rfl⟩)
     · exact Or.inl rfl
 
 /-! ### C20: everything released is zero -/
 
-/-- **C20 (life cycle).** If the container's `Drop` zeroizes and the zeroization covers the secret, then for every
-    program — any interleaving of constructions, clones and drops, including drops of clones, double drops and drops
-    of slots that never existed — every buffer handed back to the allocator consists of zero bytes only. -/
+/-- **C20 (life cycle).** If the container's `Drop` zeroizes, the zeroization covers the secret and `clone_from`
+    drops the value it overwrites, then for every program — any interleaving of constructions, clones, overwrites
+    (`clone_from`, including `a.clone_from(&a)`, onto or from dropped slots) and drops, including drops of clones,
+    double drops and drops of slots that never existed — every buffer handed back to the allocator consists of zero
+    bytes only. -/
 theorem C20_lifecycle (c : Container) (hd : c.dropZeroizes = true) (hz : c.zeroizeCoversSecret = true)
+    (ha : c.assignDropsOld = true)
     (ops : List Op) : ∀ r ∈ (Lifecycle.run c ops).released, ∀ x ∈ r, x = 0 := by
   unfold Lifecycle.run
   refine Lifecycle.foldl_inv c (fun h => ∀ r ∈ h.released, ∀ x ∈ r, x = 0) ?_ ops {} ?_
   · intro h op hI
-    rcases Lifecycle.step_released c h op with he | ⟨i, b, _, _, he⟩
-    · rw [he]; exact hI
-    · rw [he, Lifecycle.dropContents_zero c hd hz]
-      intro r hr x hx
+    have hcons : ∀ n : Nat, ∀ r ∈ zeros n :: h.released, ∀ x ∈ r, x = 0 := by
+      intro n r hr x hx
       rcases List.mem_cons.mp hr with rfl | hr'
       · exact Lifecycle.mem_zeros hx
       · exact hI r hr' x hx
+    rcases Lifecycle.step_released c h op with he | ⟨i, b, _, _, he⟩ | ⟨i, j, bi, bj, _, _, _, he⟩
+    · rw [he]; exact hI
+    · rw [he, Lifecycle.dropContents_zero c hd hz]
+      exact hcons _
+    · rw [he, if_pos ha, Lifecycle.dropContents_zero c hd hz]
+      exact hcons _
   · intro r hr; cases hr
 
 /-- **C20 for every container of the source**: table obligation ∘ life-cycle theorem. -/
 theorem C20_all_containers (c : Container) (hc : c ∈ Generated.containers) (ops : List Op) :
     ∀ r ∈ (Lifecycle.run c ops).released, ∀ x ∈ r, x = 0 :=
-  C20_lifecycle c (C20_table c hc).1 (C20_table c hc).2 ops
+  C20_lifecycle c (C20_table c hc).1 (C20_table c hc).2.1 (C20_table c hc).2.2 ops
 
 /-- the instance for a container looked up by name -/
 theorem C20_named (name : String) (c : Container) (hc : Lifecycle.container name = some c) (ops : List Op) :
@@ -111,8 +138,15 @@ theorem C20_PayloadKey : ∃ c, Lifecycle.container "PayloadKey" = some c ∧
 
 /-- a program with a clone, a drop of the clone, a drop of the original, a double drop and a drop of a slot that never
     existed: two releases, both 3 zero bytes (the secret was `[1,2,3]`) -/
-example : (Lifecycle.run ⟨"PrivateKey", true, true⟩
+example : (Lifecycle.run ⟨"PrivateKey", true, true, true⟩
     [.generate [1,2,3], .clone 0, .drop 1, .drop 0, .drop 0, .drop 7]).released = [[0,0,0], [0,0,0]] := by decide
+
+/-- two containers, the first overwritten by a copy of the second (`clone_from`), then both dropped: three releases —
+    the overwritten 3-byte secret and the two 2-byte copies — all zero, and nothing is left alive -/
+example : (Lifecycle.run ⟨"PrivateKey", true, true, true⟩
+    [.fromBytes [1,2,3], .fromBytes [4,5], .cloneFrom 0 1, .drop 0, .drop 1]).released = [zeros 2, zeros 2, zeros 3] ∧
+    (Lifecycle.run ⟨"PrivateKey", true, true, true⟩
+    [.fromBytes [1,2,3], .fromBytes [4,5], .cloneFrom 0 1, .drop 0, .drop 1]).live = [none, none] := by decide
 
 /-- the released buffer has the size of the secret: the whole secret is overwritten, not a part of it -/
 theorem C20_release_covers (c : Container) (hd : c.dropZeroizes = true) (hz : c.zeroizeCoversSecret = true)
@@ -121,24 +155,30 @@ theorem C20_release_covers (c : Container) (hd : c.dropZeroizes = true) (hz : c.
   simp only [step, hb]
   rw [Lifecycle.dropContents_zero c hd hz]
 
-example : (step ⟨"PayloadKey", true, true⟩ { live := [some [9,9]] } (.drop 0)).released = [zeros 2] :=
+example : (step ⟨"PayloadKey", true, true, true⟩ { live := [some [9,9]] } (.drop 0)).released = [zeros 2] :=
   C20_release_covers _ rfl rfl _ 0 [9,9] rfl
 
 /-! ### C20: how many releases -/
 
-/-- does this operation release a buffer in this heap? (a `drop` of a live slot) -/
+/-- does this operation release a buffer in this heap? (a `drop` of a live slot: that slot's buffer; a `cloneFrom i j`
+    with both slots live: ONE buffer, the one slot `i` held before being overwritten) -/
 def Lifecycle.hit (h : Heap) : Op → Nat
   | .drop i => match h.live[i]? with
     | some (some _) => 1
     | _ => 0
+  | .cloneFrom i j => match h.live[i]?, h.live[j]? with
+    | some (some _), some (some _) => 1
+    | _, _ => 0
   | _ => 0
 
-/-- the number of `drop i` operations of the program that hit a live slot, running from heap `h` -/
+/-- the number of releasing operations of the program, running from heap `h`: `drop i` operations that hit a live slot
+    plus `cloneFrom i j` operations that find both slots live -/
 def Lifecycle.hits (c : Container) : Heap → List Op → Nat
   | _, [] => 0
   | h, op :: ops => hit h op + hits c (step c h op) ops
 
-/-- the same, counting only drops of slot `i` -/
+/-- the number of `drop i` operations — for this one slot `i`, and `drop` only: overwrites of slot `i` by `cloneFrom`
+    are NOT counted here (they are in `hits`) — that hit the slot while it is live -/
 def Lifecycle.hitsAt (c : Container) (i : Nat) : Heap → List Op → Nat
   | _, [] => 0
   | h, op :: ops => (if op = .drop i then hit h op else 0) + hitsAt c i (step c h op) ops
@@ -154,6 +194,17 @@ theorem Lifecycle.step_released_length (c : Container) (h : Heap) (op : Op) :
     cases h.live[i]? with
     | none => rfl
     | some o => cases o <;> rfl
+  | cloneFrom i j =>
+    simp only [step, hit]
+    cases h.live[i]? with
+    | none => rfl
+    | some oi =>
+      cases oi with
+      | none => rfl
+      | some bi =>
+        cases h.live[j]? with
+        | none => rfl
+        | some oj => cases oj <;> rfl
 
 theorem Lifecycle.foldl_released_length (c : Container) : ∀ (ops : List Op) (h : Heap),
     (ops.foldl (step c) h).released.length = h.released.length + hits c h ops := by
@@ -166,18 +217,25 @@ theorem Lifecycle.foldl_released_length (c : Container) : ∀ (ops : List Op) (h
     omega
 
 /-- **C20 (release count).** The number of buffers released by a program is exactly the number of its `drop`
-    operations that hit a live container: nothing is released by `clone`/construction, nothing is released twice,
-    nothing that was dropped is kept. (Whatever the table row says.) -/
+    operations that hit a live container plus the number of its `cloneFrom` operations that overwrite a live container
+    with a live one (one release each: the overwritten value): nothing is released by `clone`/construction, nothing is
+    released twice, nothing that was dropped or overwritten is kept. (Whatever the table row says.) -/
 theorem C20_release_count (c : Container) (ops : List Op) :
     (Lifecycle.run c ops).released.length = Lifecycle.hits c {} ops := by
   unfold Lifecycle.run
   rw [Lifecycle.foldl_released_length]
   exact Nat.zero_add _
 
-example : Lifecycle.hits ⟨"PrivateKey", true, true⟩ {}
+example : Lifecycle.hits ⟨"PrivateKey", true, true, true⟩ {}
     [.generate [1,2,3], .clone 0, .drop 1, .drop 0, .drop 0, .drop 7] = 2 := by decide
 
-/-- a slot that has been dropped stays dropped under every operation -/
+/-- two overwrites that release (one of them `a.clone_from(&a)`), one onto a dropped slot and one from a slot that
+    never existed that do not, two drops -/
+example : Lifecycle.hits ⟨"PrivateKey", true, true, true⟩ {}
+    [.fromBytes [1,2,3], .fromBytes [4,5], .cloneFrom 0 1, .cloneFrom 1 1, .drop 0, .cloneFrom 0 1, .cloneFrom 1 7,
+     .drop 1] = 4 := by decide
+
+/-- a slot that has been dropped stays dropped under every operation (`cloneFrom` onto a dropped slot is a no-op) -/
 theorem Lifecycle.step_dead (c : Container) (h : Heap) (i : Nat) (hi : h.live[i]? = some none) (op : Op) :
     (step c h op).live[i]? = some none := by
   have hlt : i < h.live.length := by
@@ -201,6 +259,14 @@ theorem Lifecycle.step_dead (c : Container) (h : Heap) (i : Nat) (hi : h.live[i]
       · subst hji; simp only [List.getElem?_set_self hlt]
       · simp only [List.getElem?_set_ne hji]; exact hi
     · exact hi
+  | cloneFrom j k =>
+    simp only [step]
+    split
+    · rename_i bj bk hj hk
+      by_cases hji : j = i
+      · subst hji; rw [hi] at hj; cases hj
+      · simp only [List.getElem?_set_ne hji]; exact hi
+    · exact hi
 
 /-- **C20 (released once), part 1.** After `drop i` has hit live slot `i`, the slot is `none` … -/
 theorem C20_drop_kills (c : Container) (h : Heap) (i : Nat) (b : Bytes) (hb : h.live[i]? = some (some b)) :
@@ -216,10 +282,21 @@ theorem C20_dead_forever (c : Container) (i : Nat) (ops : List Op) (h : Heap) (h
     (ops.foldl (step c) h).live[i]? = some none :=
   Lifecycle.foldl_inv c (fun h => h.live[i]? = some none) (fun h op hI => Lifecycle.step_dead c h i hI op) ops h hi
 
-/-- … so that no later `drop i` releases anything: it leaves the heap exactly as it is. -/
+/-- … so that no later `drop i` releases anything: it leaves the heap exactly as it is … -/
 theorem C20_drop_dead_noop (c : Container) (h : Heap) (i : Nat) (hi : h.live[i]? = some none) :
     step c h (.drop i) = h := by
   simp only [step, hi]
+
+/-- … and no later `cloneFrom i j` does either (nor a `cloneFrom j i` that would copy out of the dropped slot). -/
+theorem C20_cloneFrom_dead_noop (c : Container) (h : Heap) (i j : Nat) (hi : h.live[i]? = some none) :
+    step c h (.cloneFrom i j) = h ∧ step c h (.cloneFrom j i) = h := by
+  constructor
+  · simp only [step, hi]
+  · simp only [step]
+    split
+    · rename_i bj bi hj hi'
+      rw [hi] at hi'; cases hi'
+    · rfl
 
 theorem Lifecycle.hitsAt_dead (c : Container) (i : Nat) : ∀ (ops : List Op) (h : Heap), h.live[i]? = some none →
     hitsAt c i h ops = 0 := by
@@ -234,7 +311,10 @@ theorem Lifecycle.hitsAt_dead (c : Container) (i : Nat) : ∀ (ops : List Op) (h
     · rfl
 
 /-- **C20 (released once).** For every program, from every heap, and every slot `i`: at most one `drop i` releases a
-    buffer. -/
+    buffer (each slot is *dropped* at most once).  What is counted is `drop i` only: before it is dropped a slot may be
+    overwritten by `cloneFrom i _` any number of times, and each such overwrite releases the value the slot held then;
+    those releases are counted in `hits` (`C20_release_count`), not here.  After the one `drop i` that hits, slot `i`
+    releases nothing more by either operation (`C20_dead_forever`, `C20_drop_dead_noop`, `C20_cloneFrom_dead_noop`). -/
 theorem C20_released_once (c : Container) (i : Nat) : ∀ (ops : List Op) (h : Heap), Lifecycle.hitsAt c i h ops ≤ 1 := by
   intro ops
   induction ops with
@@ -256,8 +336,15 @@ theorem C20_released_once (c : Container) (i : Nat) : ∀ (ops : List Op) (h : H
           exact Nat.le_refl _
     · rw [if_neg hop]; have := ih (step c h op); omega
 
-example : Lifecycle.hitsAt ⟨"PrivateKey", true, true⟩ 0 {}
+example : Lifecycle.hitsAt ⟨"PrivateKey", true, true, true⟩ 0 {}
     [.generate [1,2,3], .drop 0, .drop 0, .generate [4], .drop 0] = 1 := by decide
+
+/-- slot 0 is overwritten twice and then dropped: one *drop* of slot 0, three releases in all -/
+example : Lifecycle.hitsAt ⟨"PrivateKey", true, true, true⟩ 0 {}
+    [.generate [1,2,3], .generate [4], .cloneFrom 0 1, .cloneFrom 0 1, .drop 0, .cloneFrom 0 1, .drop 0] = 1 ∧
+    Lifecycle.hits ⟨"PrivateKey", true, true, true⟩ {}
+    [.generate [1,2,3], .generate [4], .cloneFrom 0 1, .cloneFrom 0 1, .drop 0, .cloneFrom 0 1, .drop 0] = 3 := by
+  decide
 
 /-! ### C20: containers are independent -/
 
@@ -294,8 +381,47 @@ theorem C20_clone_survives (c : Container) (h : Heap) (i : Nat) (b : Bytes) (hb 
   rw [C20_clone_independent c _ i h.live.length (by omega)]
   exact (C20_clone_holds c h i b hb).1
 
-example : (Lifecycle.run ⟨"PrivateKey", true, true⟩ [.generate [1,2,3], .clone 0, .drop 0]).live = [none, some [1,2,3]] := by
+example : (Lifecycle.run ⟨"PrivateKey", true, true, true⟩ [.generate [1,2,3], .clone 0, .drop 0]).live = [none, some [1,2,3]] := by
   decide
+
+/-! ### C20: overwriting a container (`clone_from`) -/
+
+/-- **C20 (`clone_from`).** Overwriting live container `i` with live container `j` releases exactly one buffer: the
+    one `i` held, of the size of the old secret and all zero; afterwards `i` holds a copy of `j`'s secret. -/
+theorem C20_cloneFrom_releases_zeros (c : Container) (hd : c.dropZeroizes = true) (hz : c.zeroizeCoversSecret = true)
+    (ha : c.assignDropsOld = true) (h : Heap) (i j : Nat) (bi bj : Bytes)
+    (hi : h.live[i]? = some (some bi)) (hj : h.live[j]? = some (some bj)) :
+    (step c h (.cloneFrom i j)).released = zeros bi.length :: h.released ∧
+    (step c h (.cloneFrom i j)).live[i]? = some (some bj) := by
+  have hlt : i < h.live.length := by
+    rcases Nat.lt_or_ge i h.live.length with hlt | hge
+    · exact hlt
+    · rw [List.getElem?_eq_none hge] at hi; cases hi
+  have hs : step c h (.cloneFrom i j) =
+      { live := h.live.set i (some bj),
+        released := (if c.assignDropsOld then dropContents c bi else bi) :: h.released } := by
+    simp only [step, hi, hj]
+  rw [hs]
+  constructor
+  · show (if c.assignDropsOld = true then dropContents c bi else bi) :: h.released = _
+    rw [if_pos ha, Lifecycle.dropContents_zero c hd hz]
+  · exact List.getElem?_set_self hlt
+
+example : (step ⟨"PayloadKey", true, true, true⟩ { live := [some [9,9], some [7]] } (.cloneFrom 0 1)).released = [zeros 2] ∧
+    (step ⟨"PayloadKey", true, true, true⟩ { live := [some [9,9], some [7]] } (.cloneFrom 0 1)).live[0]? = some (some [7]) :=
+  C20_cloneFrom_releases_zeros _ rfl rfl rfl _ 0 1 [9,9] [7] rfl rfl
+
+/-- `cloneFrom i j` leaves every slot other than `i` as it was — in particular the source `j` (when `j ≠ i`) keeps its
+    secret: the copy is deep. (Whatever the table row says, and whether or not the operation hits.) -/
+theorem C20_cloneFrom_others_untouched (c : Container) (h : Heap) (i j k : Nat) (hk : k ≠ i) :
+    (step c h (.cloneFrom i j)).live[k]? = h.live[k]? := by
+  simp only [step]
+  split
+  · simp only [List.getElem?_set_ne (Ne.symm hk)]
+  · rfl
+
+example : (Lifecycle.run ⟨"PrivateKey", true, true, true⟩ [.generate [1,2,3], .generate [4], .cloneFrom 0 1, .drop 0]).live =
+    [none, some [4]] := by decide
 
 /-! ### non-vacuity of the obligation -/
 
@@ -303,13 +429,25 @@ example : (Lifecycle.run ⟨"PrivateKey", true, true⟩ [.generate [1,2,3], .clo
     `impl Drop` produces) there is a program whose release carries the secret. -/
 theorem C20_leak_without_drop : ∃ (c : Container) (ops : List Op), c.dropZeroizes = false ∧
     ∃ r ∈ (Lifecycle.run c ops).released, ∃ x ∈ r, x ≠ 0 :=
-  ⟨⟨"PrivateKey", false, true⟩, [.fromBytes [1,2,3], .drop 0], rfl, [1,2,3], by decide, 1, by decide, by decide⟩
+  ⟨⟨"PrivateKey", false, true, true⟩, [.fromBytes [1,2,3], .drop 0], rfl, [1,2,3], by decide, 1, by decide, by decide⟩
 
 /-- likewise when `Drop` exists but the zeroization does not cover the secret field -/
 theorem C20_leak_without_cover : ∃ (c : Container) (ops : List Op), c.zeroizeCoversSecret = false ∧
     ∃ r ∈ (Lifecycle.run c ops).released, ∃ x ∈ r, x ≠ 0 :=
-  ⟨⟨"PayloadKey", true, false⟩, [.generate [5], .clone 0, .drop 1], rfl, [5], by decide, 5, by decide, by decide⟩
+  ⟨⟨"PayloadKey", true, false, true⟩, [.generate [5], .clone 0, .drop 1], rfl, [5], by decide, 5, by decide, by decide⟩
 
-example : (Lifecycle.run ⟨"PrivateKey", false, true⟩ [.fromBytes [1,2,3], .drop 0]).released = [[1,2,3]] := by decide
+example : (Lifecycle.run ⟨"PrivateKey", false, true, true⟩ [.fromBytes [1,2,3], .drop 0]).released = [[1,2,3]] := by decide
+
+/-- likewise when `Drop` zeroizes the whole secret but `clone_from` assigns the secret field only (a hand-written
+    `clone_from` instead of the default `*self = source.clone()`): the overwritten buffer goes back as it is -/
+theorem C20_leak_with_fieldwise_clone_from : ∃ (c : Container) (ops : List Op),
+    c.dropZeroizes = true ∧ c.zeroizeCoversSecret = true ∧ c.assignDropsOld = false ∧
+    ∃ b ∈ (Lifecycle.run c ops).released, ∃ x ∈ b, x ≠ 0 :=
+  ⟨⟨"PrivateKey", true, true, false⟩, [.fromBytes [1,2,3], .fromBytes [4,5], .cloneFrom 0 1], rfl, rfl, rfl,
+    [1,2,3], by decide, 1, by decide, by decide⟩
+
+example : (Lifecycle.run ⟨"PrivateKey", true, true, false⟩
+    [.fromBytes [1,2,3], .fromBytes [4,5], .cloneFrom 0 1, .drop 0, .drop 1]).released = [zeros 2, zeros 2, [1,2,3]] := by
+  decide
 
 end Kestrel
